@@ -256,6 +256,16 @@ def gen_map(rng, tier):
             yield {"defs": mutate_record(rng, mutate_record(rng, r))}
 
 
+def impl_wf(a):
+    """there is no `wf` in the code: the implementation side says whether mapping succeeded"""
+    return ok("ok" in impl_map(a))
+
+
+def compare_wf(model, impl, a):
+    # model: wfDefinitions d; the theorem generation_succeeds says wf -> success
+    return (not model.get("ok")) or impl.get("ok") is True
+
+
 def classify_map(a, o):
     if "err" in o:
         return "err:" + o["err"]
@@ -263,7 +273,8 @@ def classify_map(a, o):
     tags = []
     d = a["defs"]
     nops = sum(1 for c in cl if c["tag"] == "BindingOperation")
-    tags.append(f"ops{min(nops, 5)}")
+    if nops == 0:
+        return "no-operations"
     if any(c["tag"] == "Element" for c in cl):
         tags.append("rpc")
     if any(c["tag"] == "BindingMessage" and not any(x["tag"] == "Element" for x in cl) for c in cl):
@@ -358,7 +369,7 @@ def _dedupe(pairs):
 
 
 def gen_parts(rng, tier):
-    refs = [None, "", "ty:E", "E", "xsd:string", "xs:int", "zz:T", ":T", "T:", "ty:a:b"]
+    refs = [None, "", "ty:E", "E", "xsd:string", "xs:int", "zz:T", ":T", "T:", "ty:a:b", ":"]
     for e in refs:
         for t in refs:
             for nm in NSMAPS:
@@ -1209,8 +1220,14 @@ ORACLES = [
 CORRS = [
     Corr("wsdl.map", gen_map, impl_map, nontrivial=nontrivial_map, classify=classify_map,
          describe="DefinitionsMapper.map on records of parsed/mutated Definitions"),
-    Corr("wsdl.config", gen_config, impl_config, describe="attributes()/config precedence, service constants, operation_namespace"),
-    Corr("wsdl.parts", gen_parts, impl_parts, describe="build_parts_attributes"),
+    Corr("wsdl.wf", gen_map, impl_wf, compare=compare_wf, classify=lambda a, o: "maps" if o.get("ok") else "fails",
+         describe="hypothesis of generation_succeeds (wfDefinitions) vs success of the real mapper: wf implies success"),
+    Corr("wsdl.config", gen_config, impl_config,
+         classify=lambda a, o: "style@" + "".join(l[0] for l in ("binding", "port", "operation") if any(k.split("}")[-1] == "style" for e in a[l] for k, _ in e["attrs"])) or "style@none",
+         describe="attributes()/config precedence, service constants, operation_namespace"),
+    Corr("wsdl.parts", gen_parts, impl_parts,
+         classify=lambda a, o: "err:" + o["err"] if "err" in o else "+".join(sorted({("native" if x["native"] else "lazy" if x["namespace"] == "##lazy" else "element") for x in o["ok"]["attrs"]} | ({"skipped"} if len(o["ok"]["attrs"]) < len(a["parts"]) else set()))) or "empty",
+         describe="build_parts_attributes"),
     Corr("wsdl.lazy", gen_lazy, impl_lazy, classify=lambda a, o: a["kind"] + ("+lazy" if a["attr_ns"] == "##lazy" else ""),
          describe="process_dependency_type / detect_lazy_namespace on a real container"),
     Corr("client.config", gen_client_config, impl_client_config, describe="Config.from_service"),
